@@ -569,13 +569,25 @@ Steps(S) ==
       [] it.k = "rangestart" ->
             LET s == N(it.n) IN
             Ret([S EXCEPT !.vals = DropN(@, 1),
-                          !.ctl = <<[k |-> "rangenext", n |-> it.n, i |-> 0, x |-> v1, d |-> Len(S.scopes)], [k |-> "loopend", d |-> Len(S.scopes)]>> \o rest])
+                          !.ctl = <<[k |-> "rangenext", n |-> it.n, i |-> 0, x |-> v1, d |-> Len(S.scopes),
+                                     \* a map is ranged over the keys it has when the loop starts (no key is produced twice, a key deleted before
+                                     \* it is reached is not produced); an entry created during the range is not produced, which Go permits: generated programs never depend on it, nor on the order
+                                     pend |-> IF v1.t = "map" /\ v1.id # 0 THEN S.heap[v1.id].ks ELSE <<>>],
+                                    [k |-> "loopend", d |-> Len(S.scopes)]>> \o rest])
       [] it.k = "rangenext" ->
             LET s == N(it.n)
                 x == it.x
                 S0 == [S EXCEPT !.scopes = KeepScopes(@, it.d)]
                 total == CASE x.t = "slice" -> x.len [] x.t = "str" -> Len(x.s) [] x.t = "int" -> x.v [] OTHER -> 0
-            IN Ret(IF it.i >= total THEN [S0 EXCEPT !.ctl = rest]
+                \* map: the next pending key that is still in the map
+                mo == S.heap[x.id]
+                live == IF x.t = "map" THEN {j \in (it.i + 1)..Len(it.pend) : KeyIndex(mo.ks, it.pend[j], 1) > 0} ELSE {}
+                mj == CHOOSE j \in live : \A j2 \in live : j <= j2
+            IN Ret(IF x.t = "map" THEN
+                     (IF live = {} THEN [S0 EXCEPT !.ctl = rest]
+                      ELSE [S0 EXCEPT !.scopes = <<Bind(Bind(EmptyScope, s.kname, it.pend[mj]), s.vname, mo.vs[KeyIndex(mo.ks, it.pend[mj], 1)])>> \o @,
+                                      !.ctl = StmtItems(s.body) \o <<[it EXCEPT !.i = mj]>> \o rest])
+                   ELSE IF it.i >= total THEN [S0 EXCEPT !.ctl = rest]
                    ELSE LET key == IntV("int32", it.i)
                             dr == IF x.t = "str" THEN DecodeRune(x.s, it.i + 1) ELSE <<0, 1>>
                             val == CASE x.t = "slice" -> S.heap[x.id].elems[x.off + it.i + 1]
@@ -583,7 +595,7 @@ Steps(S) ==
                                      [] OTHER -> key
                             width == IF x.t = "str" THEN dr[2] ELSE 1
                         IN [S0 EXCEPT !.scopes = <<Bind(Bind(EmptyScope, s.kname, key), s.vname, val)>> \o @,
-                                      !.ctl = StmtItems(s.body) \o <<[k |-> "rangenext", n |-> it.n, i |-> it.i + width, x |-> x, d |-> it.d]>> \o rest])
+                                      !.ctl = StmtItems(s.body) \o <<[it EXCEPT !.i = it.i + width]>> \o rest])
       [] it.k = "swcase" ->
             LET s == N(it.n)
                 tagged == s.tag # 0
